@@ -547,6 +547,173 @@ theorem bfR_costs (edges : List Edge) : ∀ (fuel : Nat) (s : RState),
       rw [hp1] at this; exact this
     · exact ⟨hp1, rfl⟩
 
+
+/-! ### the repair loop reaches its no-progress state (termination of `groundLoop`) -/
+
+/-- the grounded list has no duplicates and only holds classes of the e-graph -/
+structure GOk (edges : List Edge) (s : GState) : Prop where
+  nodup : s.grounded.Nodup
+  sub : ∀ c ∈ s.grounded, c ∈ classesOf edges
+
+theorem mem_classesOf {edges : List Edge} {e : Edge} (h : e ∈ edges) : e.target ∈ classesOf edges := by
+  unfold classesOf
+  rw [List.mem_eraseDups]
+  exact List.mem_map.mpr ⟨e, h, rfl⟩
+
+theorem nodup_snoc {l : List Nat} {x : Nat} (h : l.Nodup) (hx : x ∉ l) : (l ++ [x]).Nodup := by
+  rw [List.nodup_append]
+  refine ⟨h, by simp, ?_⟩
+  intro a ha b hb
+  simp only [List.mem_singleton] at hb
+  subst hb
+  intro hab; subst hab; exact hx ha
+
+theorem gbStep_ok {edges : List Edge} (costs : Costs) (s : GState) (e : Edge) (he : e ∈ edges) (h : GOk edges s) :
+    GOk edges (gbStep costs s e) := by
+  unfold gbStep
+  split
+  · exact h
+  · rename_i hc
+    simp only [Bool.or_eq_true, not_or, Bool.not_eq_true] at hc
+    have hnc : e.target ∉ s.grounded := by
+      have := hc.1.1.1.2
+      intro hm; rw [List.contains_iff_mem.mpr hm] at this; cases this
+    refine ⟨nodup_snoc h.nodup hnc, ?_⟩
+    intro c hc'
+    rcases List.mem_append.mp hc' with h1 | h1
+    · exact h.sub c h1
+    · simp only [List.mem_singleton] at h1; subst h1; exact mem_classesOf he
+
+theorem gbFold_ok {edges : List Edge} (costs : Costs) : ∀ (es : List Edge) (s : GState), (∀ e ∈ es, e ∈ edges) →
+    GOk edges s → GOk edges (es.foldl (gbStep costs) s) := by
+  intro es
+  induction es with
+  | nil => intro s _ h; exact h
+  | cons e es ih =>
+    intro s hsub h
+    simp only [List.foldl_cons]
+    exact ih _ (fun x hx => hsub x (List.mem_cons_of_mem _ hx)) (gbStep_ok costs s e (hsub e List.mem_cons_self) h)
+
+/-- a sweep of phase 2 that adds nothing changes nothing -/
+theorem gbFold_fixed (costs : Costs) : ∀ (es : List Edge) (s : GState),
+    (es.foldl (gbStep costs) s).grounded.length = s.grounded.length → es.foldl (gbStep costs) s = s := by
+  intro es
+  induction es with
+  | nil => intro s _; rfl
+  | cons e es ih =>
+    intro s hlen
+    simp only [List.foldl_cons] at hlen ⊢
+    have h1 := gbStep_len costs s e
+    have h2 := gbFold_len costs es (gbStep costs s e)
+    have hstep : gbStep costs s e = s := by
+      unfold gbStep at h1 h2 hlen ⊢
+      split
+      · rfl
+      · rename_i hc
+        rw [if_neg hc] at h2 hlen
+        simp only [List.length_append, List.length_singleton] at h2
+        omega
+    rw [hstep] at hlen ⊢
+    exact ih s hlen
+
+def grStep (s : GState) (c : Nat) : GState :=
+  if s.grounded.contains c then s else
+  match s.parent c with
+  | some e => if childrenGrounded s.grounded e then { s with grounded := s.grounded ++ [c] } else s
+  | none => s
+
+theorem groundRecorded_eq (cands : List Nat) (s : GState) : groundRecorded cands s = cands.foldl grStep s := rfl
+
+theorem grStep_len (s : GState) (c : Nat) : s.grounded.length ≤ (grStep s c).grounded.length := by
+  unfold grStep
+  split
+  · exact Nat.le_refl _
+  · split
+    · split <;> simp
+    · exact Nat.le_refl _
+
+theorem grFold_len : ∀ (cs : List Nat) (s : GState), s.grounded.length ≤ (cs.foldl grStep s).grounded.length := by
+  intro cs
+  induction cs with
+  | nil => intro s; exact Nat.le_refl _
+  | cons c cs ih => intro s; simp only [List.foldl_cons]; exact Nat.le_trans (grStep_len s c) (ih _)
+
+theorem grStep_ok {edges : List Edge} (s : GState) (c : Nat) (hc : c ∈ classesOf edges) (h : GOk edges s) : GOk edges (grStep s c) := by
+  unfold grStep
+  split
+  · exact h
+  · rename_i hnc
+    split
+    · split
+      · refine ⟨nodup_snoc h.nodup (fun hm => hnc (List.contains_iff_mem.mpr hm)), ?_⟩
+        intro x hx
+        rcases List.mem_append.mp hx with h1 | h1
+        · exact h.sub x h1
+        · simp only [List.mem_singleton] at h1; subst h1; exact hc
+      · exact h
+    · exact h
+
+theorem grFold_ok {edges : List Edge} : ∀ (cs : List Nat) (s : GState), (∀ c ∈ cs, c ∈ classesOf edges) →
+    GOk edges s → GOk edges (cs.foldl grStep s) := by
+  intro cs
+  induction cs with
+  | nil => intro s _ h; exact h
+  | cons c cs ih =>
+    intro s hsub h
+    simp only [List.foldl_cons]
+    exact ih _ (fun x hx => hsub x (List.mem_cons_of_mem _ hx)) (grStep_ok s c (hsub c List.mem_cons_self) h)
+
+theorem GOk.len_le {edges : List Edge} {s : GState} (h : GOk edges s) : s.grounded.length ≤ (classesOf edges).length :=
+  List.Nodup.length_le_of_subset h.nodup (fun c hc => h.sub c hc)
+
+/-- **The repair loop terminates in its no-progress state**: with as much fuel as there are
+classes (plus one) the loop does not run out of fuel — its result is a state on which a further
+sweep of phase 2 adds nothing, which is the hypothesis of `C07_repair_total`. -/
+theorem C07_repair_terminates (edges : List Edge) (costs : Costs) : ∀ (fuel : Nat) (s : GState), GOk edges s →
+    (classesOf edges).length - s.grounded.length < fuel →
+    (groundBest edges costs (groundLoop edges costs (classesOf edges) fuel s)).grounded.length
+      = (groundLoop edges costs (classesOf edges) fuel s).grounded.length := by
+  intro fuel
+  induction fuel with
+  | zero => intro s _ h; omega
+  | succ k ih =>
+    intro s hok hf
+    have hok1 : GOk edges (groundRecorded (classesOf edges) s) := by
+      rw [groundRecorded_eq]; exact grFold_ok _ s (fun c hc => hc) hok
+    have hle1 : s.grounded.length ≤ (groundRecorded (classesOf edges) s).grounded.length := by
+      rw [groundRecorded_eq]; exact grFold_len _ s
+    have hok2 : GOk edges (groundBest edges costs (groundRecorded (classesOf edges) s)) := by
+      rw [groundBest_eq]; exact gbFold_ok costs edges _ (fun e he => he) hok1
+    have hle2 : (groundRecorded (classesOf edges) s).grounded.length ≤ (groundBest edges costs (groundRecorded (classesOf edges) s)).grounded.length := by
+      rw [groundBest_eq]; exact gbFold_len costs edges _
+    have hb1 := hok1.len_le
+    have hb2 := hok2.len_le
+    simp only [groundLoop]
+    split
+    · rename_i hne
+      exact ih _ hok1 (by omega)
+    · rename_i heq
+      split
+      · rename_i hne2
+        exact ih _ hok2 (by omega)
+      · rename_i heq2
+        have heq2' : (groundBest edges costs (groundRecorded (classesOf edges) s)).grounded.length
+            = (groundRecorded (classesOf edges) s).grounded.length := by
+          by_cases h : (groundBest edges costs (groundRecorded (classesOf edges) s)).grounded.length
+            = (groundRecorded (classesOf edges) s).grounded.length
+          · exact h
+          · exact absurd h heq2
+        have hfix : groundBest edges costs (groundRecorded (classesOf edges) s) = groundRecorded (classesOf edges) s := by
+          rw [groundBest_eq] at heq2' ⊢; exact gbFold_fixed costs edges _ heq2'
+        rw [hfix, hfix]
+
+/-- the empty start state of the pipeline, with enough fuel -/
+theorem C07_repair_terminates_init (edges : List Edge) (costs : Costs) (parent0 : Parent) (fuel : Nat)
+    (hf : (classesOf edges).length < fuel) :
+    (groundBest edges costs (groundLoop edges costs (classesOf edges) fuel ⟨parent0, []⟩)).grounded.length
+      = (groundLoop edges costs (classesOf edges) fuel ⟨parent0, []⟩).grounded.length :=
+  C07_repair_terminates edges costs fuel ⟨parent0, []⟩ ⟨List.nodup_nil, fun c hc => by cases hc⟩ (by simpa using hf)
+
 /-- **Extraction fails only when the class has no term** — for the whole repaired pipeline of the
 model: at the cost fixpoint, with every head cost within `u64`, once the repair's second phase
 makes no more progress every class with a derivation (`Reach`) is grounded, hence (by
@@ -562,5 +729,21 @@ theorem C07_pipeline_total (edges : List Edge) (fuel : Nat) (hh : ∀ e ∈ edge
   rw [hc] at hnp
   obtain ⟨k', hk', _⟩ := stable_le hst' r
   exact C07_repair_total hs hst' hh s hnp c k' hk'
+
+
+/-- **Whenever the repair runs, extraction fails only for classes without any term** — no
+hypothesis on the repair loop any more: the cost loop reached its fixpoint (`hfix`) and the fuel
+exceeds the number of classes. -/
+theorem C07_extract_total (edges : List Edge) (fuel : Nat) (hh : ∀ e ∈ edges, e.head ≤ cap)
+    (hfix : (bellmanFordR edges fuel ⟨noCosts, fun _ => 0, 0⟩).2 = true)
+    (hf : (classesOf edges).length < fuel) (hrep : (extractAll edges fuel).2.2 = true)
+    (c k : Nat) (r : Reach edges c k) : c ∈ (extractAll edges fuel).1.grounded := by
+  unfold extractAll at hrep ⊢
+  simp only at hrep ⊢
+  split
+  · exact C07_pipeline_total edges fuel hh hfix _ (C07_repair_terminates_init edges _ _ fuel hf) c k r
+  · rename_i hun
+    rw [if_neg hun] at hrep
+    cases hrep
 
 end EgglogVerif.Extract
